@@ -1,11 +1,24 @@
-"""C11: state_exclusion (min-error primal/dual; unambiguous primal vs dual), is_antidistinguishable and
-common_quantum_overlap against certified intervals.
+"""C11: state_exclusion (min-error primal/dual; unambiguous primal/dual), is_antidistinguishable and
+common_quantum_overlap against certified intervals, and the programs / arithmetic the code builds against the Lean model.
 
 For each instance the exact dyadic images of the float inputs handed to toqito define the instance; an exact
 feasible POVM (UPPER bound hi of the minimum) and an exact dual-feasible operator (LOWER bound lo) are built by
 untrusted means and accepted only by the verified Lean checker (theorems checkExclPrimal_sound / checkExclDual_sound
-in lean/Toq/Properties/C11.lean; lo = max(lo, 0) by excl_nonneg when the exact states are v v^H).  The value returned
-by toqito must lie in [lo - tau, hi + tau]; the returned operators must form a POVM attaining the reported value."""
+in lean/Toq/Properties/C11.lean; lo = max(lo, 0) by excl_nonneg when the exact states are v v^H, toDensityVec_psd).  The value
+returned by toqito must lie in [lo - tau, hi + tau]; the returned operators must form a POVM attaining the reported value.
+The unambiguous pair is certified in the same way for vector inputs (checkUnambExclPrimal_sound / checkUnambExclDual_sound).
+
+Streams added by the deepening pass:
+* `embedding`: picos.Problem.solve is replaced by a recorder, so the four programs state_exclusion BUILDS are captured without being
+  solved; exact points of the modelled programs (Lean `excl_program` = `prepare` + the slack functions the verified checkers use) are
+  written into the captured variables: a point the verified checker certifies feasible must satisfy every captured constraint to 1e-9,
+  the captured objective must equal the modelled objective to 1e-12 at every point, and negative controls (points the model rejects)
+  must violate a captured constraint by 1e-3.  Points: random interior ones and the (repaired) optimal ones, where constraints are tight.
+* `post`: state_exclusion is replaced by a recorder returning a chosen value: the arguments is_antidistinguishable /
+  common_quantum_overlap pass (all-ones weights, min-error, dual form) and what they compute from the value against Lean `excl_post`
+  (`antidistTest`, `cqoPost`; theorems antidist_test_iff, cqo_post_eq, antidist_test_decides).
+* `families`: trine() and pusey_barrett_rudolph(n, theta) against the Lean constructors `trineStates` / `pbrStates` evaluated on the exact
+  images of sqrt(3), cos(theta/2), sin(theta/2) (the vectors trine_antidistinguishable / pbr2_antidistinguishable / pbr1_antidist_iff speak about)."""
 from __future__ import annotations
 
 import itertools
@@ -13,7 +26,10 @@ import warnings
 
 import numpy as np
 
+from fractions import Fraction
+
 from ..cert import DM, chol_factor, frac_json, repair_povm
+from ..common import CorrespondenceBroken
 from ..exact import Pure, call_rng, describe, present_list, vary_ensemble
 from ..pool import Result, TaskTimeout, run_pool, worker_driver
 from .. import qgen
@@ -27,17 +43,30 @@ RULE = ("ensembles (2..5 states, dimension 2..4, real/complex integer amplitudes
         "presentation: every call receives the same values in a freshly drawn presentation per list element (C / Fortran / strided memory layout; real-valued "
         "states as float64, integer-valued ones as int64), one in three complex ensembles of the kinds random / near / mixed has some states made real-valued "
         "(real-dtype first element followed by complex ones, or the reverse; also computational basis vectors); the caller's list, arrays and priors must be "
-        "untouched by every call and a repeated call on the same objects (one in four min-error calls) must return the same value")
+        "untouched by every call and a repeated call on the same objects (one in four min-error calls) must return the same value; "
+        "embedding: the first 40 random instances and every third family instance x the four programs x (one random interior point, the repaired optimal point [min-error: exactly "
+        "Hermitian inputs; unambiguous: vector inputs with positive priors]) with 1-3 negative controls each, non-trivial = point certified feasible by the Lean checker; points are complex "
+        "exactly when some state is; post: 4 ensemble sizes x 16 values (0, +-1e-9, around +-1e-8, 1e-7, 2e-3, 0.25, 1, random), values within 2^-30 relative of the threshold 1e-8 are not generated; "
+        "families: trine and PBR n = 1, 2, 3 at the threshold angle, pi/2 and random angles")
 ASSUMPTIONS = [
     "toqito computes with the float inputs it is given; the instance certified is their exact dyadic image (difference <= 1e-15 relative); a state vector v denotes the exact operator v v^H",
     "tolerance 2e-5 on CVXOPT-solved values (declared in DESIGN.md 4.4), 1e-3 for other solvers; 1e-4 on the POVM residuals of returned operators",
-    "unambiguous exclusion: only agreement of toqito's primal and dual values within 1e-4 on instances where both solves return (no certificate); weak duality of that pair is proved (unamb_excl_weak_duality); "
+    "unambiguous exclusion: agreement of toqito's primal and dual values within 1e-4 on instances where both solves return (weak duality of that pair: unamb_excl_weak_duality); for vector inputs with positive "
+    "priors additionally a certified interval [lo, hi] (width <= 1e-4, else counted as uncertified) from the verified unambiguous checkers, and every returned value must lie in [lo - 1e-4, hi + 1e-4]; "
+    "density-matrix inputs are not certified for this strategy (the exact image of a float outer product has no exact kernel, so the exact program is a different one); "
     "when CVXOPT breaks down numerically at its default tolerance the call is repeated once with abs/rel_ipm_opt_tol=1e-6 (the remedy named in the function's docstring)",
     "the PBR threshold tan(theta/2) >= 2^(1/n) - 1 and the antidistinguishability of trine/BB84/Bell sets are cited facts; each is re-confirmed per instance by the certified interval",
     "is_antidistinguishable is only judged when the certified interval for all-ones weights is decisive (hi <= 1e-7 or lo > 1e-3)",
+    "embedding: picos evaluates the captured constraint / objective expressions faithfully at assigned variable values (Constraint.psd / lhs / rhs / slack, Expression.np); the point handed to picos is the "
+    "float image of the exact point (entries rounded once, <= 1e-16 relative), hence the tolerances 1e-12 (objective) and 1e-9 (feasibility); whether the constraints are written with exactly the model's slack "
+    "operators is recorded as evidence (slacks-identical / slacks-differ) but is not a verdict: an equivalent reformulation of a constraint is not a failing input",
+    "post / families: a difference between the code and the modelled arithmetic that does not contradict the property itself (other tolerance of the zero test, other call form, other order or sign of a named "
+    "family) is reported as a broken correspondence (CorrespondenceBroken), not as a failing input; contradictions (common_quantum_overlap off by > 1e-9, a value <= 1e-9 not reported antidistinguishable or a "
+    "value >= 1e-3 reported antidistinguishable) are violations",
 ]
 TAU = {"cvxopt": 2e-5}
 TAU_OTHER = 1e-3
+TAU_UNAMB = 1e-4  # unambiguous programs: the tolerance of the primal/dual agreement check, also used against the certified interval
 WIDTH_OK = 1e-4  # certified intervals wider than this are counted as uncertified (never a violation by themselves)
 ZERO_HI = 1e-7  # certified upper bound that confirms "value 0" for antidistinguishable sets
 POS_LO = 1e-3  # certified lower bound that confirms "not antidistinguishable"
@@ -181,6 +210,19 @@ def _dms_exact(states):
     return out
 
 
+def _dms_exact_raw(states):
+    """as _dms_exact, but square-matrix inputs are taken as they are (to_density_matrix returns them unchanged)"""
+    out = []
+    for s in states:
+        a = np.asarray(s)
+        if a.ndim == 1 or 1 in a.shape:
+            v = DM.exact_float(a.reshape(-1, 1))
+            out.append((v @ v.H()))
+        else:
+            out.append(DM.exact_float(a))
+    return out
+
+
 def _solve(prob):
     """untrusted reference solve: CLARABEL first (robust on degenerate instances), then CVXOPT, then SCS"""
     import cvxpy as cp
@@ -272,6 +314,168 @@ def certify_excl(drv, rhos, probs, Ms_f, Y_f, psd_exact, eps_bits=26):
     if psd_exact and all(p > 0 for p in probs):
         # theorem excl_nonneg: states v v^H are PSD exactly, priors positive => every POVM has value >= 0
         lo = 0.0 if lo is None else max(lo, 0.0)
+    return lo, hi, why
+
+
+
+# ------------------------------------------------------------------------------------------------
+# unambiguous exclusion: certified interval (vector inputs) -- Lean checkUnambExclPrimal_sound / checkUnambExclDual_sound
+
+
+def _chol_exact(A: DM, delta=Fraction(0), bits=80):
+    """untrusted: dyadic L (denominator 2^bits) with A - L L^H = delta I up to ~2^-bits, by Cholesky in exact rational arithmetic with
+    rounded square roots (the float Cholesky of cert.chol_factor loses the small eigenvalues when the multipliers a_i are ~1e5)"""
+    import math
+    n = A.re.shape[0]
+    sc = 1 << bits
+
+    def rnd(q):
+        return Fraction(int(math.floor(q * sc + Fraction(1, 2))), sc)
+
+    Are = [[Fraction(int(A.re[i, j]), 1 << A.e) for j in range(n)] for i in range(n)]
+    Aim = [[Fraction(int(A.im[i, j]), 1 << A.e) for j in range(n)] for i in range(n)]
+    Lre = [[Fraction(0)] * n for _ in range(n)]
+    Lim = [[Fraction(0)] * n for _ in range(n)]
+    for j in range(n):
+        s_ = Are[j][j] - delta - sum(Lre[j][c] ** 2 + Lim[j][c] ** 2 for c in range(j))
+        if s_ <= 0:
+            return None
+        ljj = Fraction(math.isqrt(int(math.floor(s_ * sc * sc))), sc)
+        if ljj == 0:
+            return None
+        Lre[j][j] = ljj
+        for i in range(j + 1, n):
+            sr = sum(Lre[i][c] * Lre[j][c] + Lim[i][c] * Lim[j][c] for c in range(j))
+            si = sum(Lim[i][c] * Lre[j][c] - Lre[i][c] * Lim[j][c] for c in range(j))
+            Lre[i][j] = rnd((Are[i][j] - sr) / ljj)
+            Lim[i][j] = rnd((Aim[i][j] - si) / ljj)
+    re = np.array([[int(Lre[i][j] * sc) for j in range(n)] for i in range(n)], dtype=object)
+    im = np.array([[int(Lim[i][j] * sc) for j in range(n)] for i in range(n)], dtype=object)
+    return DM(re, im, bits)
+
+
+def _solve_unamb_ref(rhos_f, probs, vecs=None):
+    """independent solve (cvxpy) of the unambiguous pair for certificate candidates: (POVM part M_i, N, a) as float arrays"""
+    import cvxpy as cp
+    d = rhos_f[0].shape[0]
+    k = len(rhos_f)
+    sig = [probs[i] * rhos_f[i] for i in range(k)]
+    S = sum(sig)
+    if vecs is not None:
+        # pure states: M_i = B_i X_i B_i^H with B_i an orthonormal basis of the orthogonal complement of v_i (the equality constraints are
+        # eliminated, which the interior-point solvers handle much more accurately)
+        Bs = []
+        for v in vecs:
+            v = np.asarray(v, dtype=complex).reshape(-1)
+            _, _, Vh = np.linalg.svd(v.conj().reshape(1, -1))
+            Bs.append(Vh[1:].conj().T)
+        Xs = [cp.Variable((d - 1, d - 1), hermitian=True) for _ in range(k)]
+        Ms = [Bs[i] @ Xs[i] @ Bs[i].conj().T for i in range(k)]
+        R = np.eye(d) - sum(Ms)
+        pr = cp.Problem(cp.Minimize(cp.real(cp.trace(S @ R))), [X >> 0 for X in Xs] + [R >> 0])
+    else:
+        Ms = [cp.Variable((d, d), hermitian=True) for _ in range(k)]
+        R = np.eye(d) - sum(Ms)
+        cons = [M >> 0 for M in Ms] + [R >> 0] + [cp.real(cp.trace(sig[i] @ Ms[i])) == 0 for i in range(k)]
+        pr = cp.Problem(cp.Minimize(cp.real(cp.trace(S @ R))), cons)
+    _solve(pr)
+    N = cp.Variable((d, d), hermitian=True)
+    if vecs is not None:
+        # the dual optimum is only approached as a_i -> infinity; in that limit the constraint N + a_i sigma_i >= S says that N - S is PSD on the
+        # orthogonal complement of v_i.  Solve that well-conditioned program for N, then compute multipliers a_i that suffice for N + 2^-19 I.
+        pd = cp.Problem(cp.Maximize(cp.real(cp.trace(S)) - cp.real(cp.trace(N))), [N >> 0] + [Bs[i].conj().T @ (N - S) @ Bs[i] >> 0 for i in range(k)])
+        _solve(pd)
+        Nv = np.array(N.value)
+        T = (Nv + Nv.conj().T) / 2 + 2.0 ** -19 * np.eye(d) - S
+        av = []
+        for i, v in enumerate(vecs):
+            v = np.asarray(v, dtype=complex).reshape(-1)
+            nv = float(np.real(np.vdot(v, v)))
+            u = v / np.sqrt(nv)
+            c = Bs[i].conj().T @ T @ u
+            TB = Bs[i].conj().T @ T @ Bs[i]
+            need = float(np.real(np.vdot(c, np.linalg.solve(TB, c)))) - float(np.real(np.vdot(u, T @ u)))
+            av.append(2.0 * max(0.0, need) / (probs[i] * nv) + 1.0)
+        return [np.array(M.value) for M in Ms], Nv, np.array(av)
+    a = cp.Variable(k)
+    pd = cp.Problem(cp.Maximize(cp.real(cp.trace(S)) - cp.real(cp.trace(N))), [N >> 0] + [N + a[i] * sig[i] - S >> 0 for i in range(k)])
+    _solve(pd)
+    return [np.array(M.value) for M in Ms], np.array(N.value), np.array(a.value).reshape(-1)
+
+
+def _weighted(rhos, probs):
+    sig = []
+    for i in range(len(rhos)):
+        pi = DM.exact_float(np.array([[probs[i]]]))
+        sig.append(rhos[i].scale_dy(int(pi.re[0, 0]), pi.e))
+    S = sig[0]
+    for t in sig[1:]:
+        S = S + t
+    return sig, S
+
+
+def _unamb_points(states, rhos, probs, Ms_f, N_f, a_f):
+    """untrusted: exact near-optimal points (with PSD witnesses) of the unambiguous primal and dual for VECTOR inputs.
+    primal: M_i = s^2 K_i L L^H K_i with K_i = (v^H v) I - v v^H (so tr(rho_i M_i) = 0 exactly, witness s K_i L with residual 0) and
+    L L^H ~ solver's M_i + 2^-26; dual: N + 2^-e I with the solver's a (rounded to 2^-16)"""
+    d = rhos[0].re.shape[0]
+    k = len(rhos)
+    I = DM.eye(d)
+    sb = 17
+    M, LM = [], []
+    for i, s_ in enumerate(states):
+        v = DM.exact_float(np.asarray(s_).reshape(-1, 1))
+        n2 = v.H() @ v
+        K = I.scale_dy(int(n2.re[0, 0]), n2.e) - (v @ v.H())
+        Mh = (Ms_f[i] + Ms_f[i].conj().T) / 2
+        try:
+            L = np.linalg.cholesky(Mh + 2.0 ** -26 * np.eye(d))
+        except np.linalg.LinAlgError:
+            w, V = np.linalg.eigh(Mh)
+            L = V @ np.diag(np.sqrt(np.clip(w, 0, None) + 2.0 ** -26))
+        Lq = (K @ DM.from_float(L, 36)).scale_dy((1 << sb) - 1, sb)
+        LM.append(Lq)
+        M.append(Lq @ Lq.H())
+    Ssum = M[0]
+    for m in M[1:]:
+        Ssum = Ssum + m
+    primal = {"M": M, "LM": LM, "LR": _chol_exact(I - Ssum, Fraction(1, 1 << 30))}
+    sig, Sx = _weighted(rhos, probs)
+    am = [int(round(float(x) * (1 << 16))) for x in a_f]
+    dual = None
+    for eps_bits in (19, 17, 15):
+        N = DM.from_float((N_f + N_f.conj().T) / 2, 40).herm_part() + I.scale_dy(1, eps_bits)
+        LD = [_chol_exact(N + sig[i].scale_dy(am[i], 16) - Sx, Fraction(1, 1 << (eps_bits + 3))) for i in range(k)]
+        LN = _chol_exact(N, Fraction(1, 1 << (eps_bits + 3)))
+        dual = {"N": N, "a": [Fraction(m_, 1 << 16) for m_ in am], "LN": LN, "LD": LD}
+        if LN is not None and all(x is not None for x in LD):
+            break
+    return primal, dual
+
+
+def certify_unamb_excl(drv, rhos, probs, primal, dual):
+    """(lo, hi, why) of the unambiguous optimum from the verified checkers"""
+    d = rhos[0].re.shape[0]
+    pj = [frac_json(Fraction(float(p))) for p in probs]
+    lo = hi = None
+    why = []
+    rj = [r_.json() for r_ in rhos]
+    if primal["LR"] is None:
+        why.append("primal:rest-cholesky")
+    else:
+        r = drv.ask("excl_unamb_primal", {"d": d, "rho": rj, "p": pj, "M": [m.json() for m in primal["M"]], "LM": [m.json() for m in primal["LM"]], "LR": primal["LR"].json()})
+        if "ok" in r:
+            hi = r["ok"][0] / r["ok"][1]
+        else:
+            why.append("primal:" + r["reject"])
+    if dual["LN"] is None or any(x is None for x in dual["LD"]):
+        why.append("dual:cholesky")
+    else:
+        r = drv.ask("excl_unamb_dual", {"d": d, "rho": rj, "p": pj, "N": dual["N"].json(), "a": [frac_json(x) for x in dual["a"]], "LN": dual["LN"].json(), "LD": [m.json() for m in dual["LD"]]})
+        if "ok" in r:
+            lo = r["ok"][0] / r["ok"][1]
+        else:
+            why.append("dual:" + r["reject"])
     return lo, hi, why
 
 
@@ -427,7 +631,27 @@ def work(task, res: Result):
                           {"function": "state_exclusion", "args": desc, "impl": val, "povm_residual": povm_res, "min_eig": mineig, "attained": att,
                            "attained_by_transposes": att_t, "cplx": inst["cplx"], "check": "povm-attains",
                            "theorem": "checkExclPrimal_sound (a POVM's value is what the objective says)"})
-    # ---- unambiguous variant: primal and dual agree where both return
+    # ---- unambiguous variant: certified interval of the optimum (vector inputs: v v^H has an exact kernel) ...
+    if unamb and psd_exact and all(p > 0 for p in probs):
+        ulo = uhi = None
+        try:
+            Mu, Nu, au = _solve_unamb_ref(rhos_f, probs, vecs=states)
+            pr_pt, du_pt = _unamb_points(states, rhos, probs, Mu, Nu, au)
+            ulo, uhi, uwhy = certify_unamb_excl(drv, rhos, probs, pr_pt, du_pt)
+        except TaskTimeout:
+            raise
+        except Exception as e:
+            uwhy = [f"ref:{type(e).__name__}"]
+        if ulo is None or uhi is None or uhi - ulo > WIDTH_OK:
+            res.count("uncertified/unamb:" + (";".join(uwhy)[:60] or "width"))
+        else:
+            res.count("unambiguous/certified")
+            for (pd_, solver_), (v_, d_) in unamb.items():
+                if not (ulo - TAU_UNAMB <= v_ <= uhi + TAU_UNAMB):
+                    res.violation(f"state_exclusion(unambiguous,{pd_},{solver_}) = {v_:.8f} outside the certified optimum [{ulo:.8f}, {uhi:.8f}]",
+                                  {"function": "state_exclusion", "args": d_, "impl": v_, "certified": [ulo, uhi], "tau": TAU_UNAMB, "cplx": inst["cplx"], "check": "unamb-value",
+                                   "theorem": "checkUnambExclPrimal_sound / checkUnambExclDual_sound"})
+    # ---- ... and primal and dual agree where both return
     for solver in {s for (_, s) in unamb}:
         if ("primal", solver) in unamb and ("dual", solver) in unamb:
             vp, dp = unamb[("primal", solver)]
@@ -569,6 +793,464 @@ def work_invariance(task, res: Result):
                       {"function": "state_exclusion", "args": desc, "values": [float(v0), float(v1), float(v2)], "theorem": "excl_values_unitary_invariant", "check": "invariance"})
 
 
+
+# ------------------------------------------------------------------------------------------------
+# stream `embedding`: the picos programs that state_exclusion BUILDS (captured at Problem.solve, never solved) against the
+# programs the theorems are about (Lean `excl_program`: prepare + the slack functions used by the verified checkers)
+
+
+class _Captured(BaseException):
+    """raised by the patched picos.Problem.solve (BaseException: must pass through `except Exception` inside toqito)"""
+
+
+def _capture(fn):
+    """run fn with picos.Problem.solve replaced by a recorder; returns the list of (problem, solve-kwargs) it was called with"""
+    import picos
+    got = []
+    orig = picos.Problem.solve
+
+    def fake(self, *a, **kw):
+        got.append((self, dict(kw)))
+        raise _Captured()
+
+    picos.Problem.solve = fake
+    try:
+        try:
+            fn()
+        except _Captured:
+            pass
+    finally:
+        picos.Problem.solve = orig
+    return got
+
+
+def _state_args(states):
+    """raw arguments for the Lean model: exact images of the arrays handed to toqito (vector layouts -> column vector)"""
+    out = []
+    for s_ in states:
+        a = np.asarray(s_)
+        if a.ndim == 1 or 1 in a.shape:
+            out.append({"vec": DM.exact_float(a.reshape(-1, 1)).json()})
+        else:
+            out.append({"dm": DM.exact_float(a).json()})
+    return out
+
+
+def _qmat(j, shape):
+    """model matrix {"re":[[n,d]..],"im":..} -> complex float array (each entry rounded once)"""
+    re = np.array([float(Fraction(n, d_)) for n, d_ in j["re"]]).reshape(shape)
+    im = np.array([float(Fraction(n, d_)) for n, d_ in j["im"]]).reshape(shape)
+    return re + 1j * im
+
+
+def _rand_mat(rng, d, cplx, lim=3):
+    A = rng.integers(-lim, lim + 1, size=(d, d)).astype(complex)
+    B = rng.integers(-lim, lim + 1, size=(d, d))     # drawn in both cases: the stream does not depend on cplx
+    return A + 1j * B if cplx else A
+
+
+def _rand_herm(rng, d, cplx, lim=3):
+    A = _rand_mat(rng, d, cplx, lim)
+    return (A + A.conj().T) / 2.0
+
+
+def _dy(x, bits=20):
+    """float -> DM 1x1 style dyadic (m, k) with x ~ m / 2^k"""
+    return int(round(x * (1 << bits))), bits
+
+
+def _embed_points(rng, form, rhos, probs, states, d, k):
+    """exact points of the model's program for `form` (dict of DM / Fractions) plus PSD witnesses; feasible by construction
+    (the verified checker is the judge) -- and the list of negative controls derived from the point: (label, modified point).
+    Points are genuinely complex exactly when some state is (for a real ensemble the real points already decide the optimum, so a
+    program restricted to real symmetric variables would not be a failing input there)."""
+    I = DM.eye(d)
+    cplx = any(np.iscomplexobj(np.asarray(s_)) and np.any(np.imag(np.asarray(s_))) for s_ in states)
+    if form == "me_primal":
+        Mf = [np.eye(d) / k + 0.02 * _rand_herm(rng, d, cplx) / d for _ in range(k)]
+        M = repair_povm(Mf, eps_bits=10)
+        pt = {"M": M, "LM": [chol_factor(m.to_float()) for m in M]}
+        two = I.scale_dy(2, 0)
+        quarter = I.scale_dy(1, 2)
+        bad = [("M0-not-psd", {"M": [M[0] - two, M[1] + two] + M[2:]}), ("sum-above-identity", {"M": [M[0] + quarter] + M[1:]}),
+               ("sum-below-identity", {"M": [M[0] - I.scale_dy(1, 4)] + M[1:]})]
+        return pt, bad
+    if form == "me_dual":
+        G = DM.from_float(0.25 * _rand_mat(rng, d, cplx), 8)
+        Y = ((I - I) - (G @ G.H()) - I.scale_dy(1, 6)).herm_part()       # Y = -(G G^H + I/64) <= 0 <= p_i rho_i
+        LY = []
+        for i in range(k):
+            pi = DM.exact_float(np.array([[probs[i]]]))
+            LY.append(chol_factor((rhos[i].scale_dy(int(pi.re[0, 0]), pi.e) - Y).to_float()))
+        return {"Y": Y, "LY": LY}, [("Y-too-large", {"Y": Y + I.scale_dy(2, 0)})]
+    if form == "ua_primal":
+        M, LM, Ks = [], [], []
+        t = 2 + k.bit_length() // 2 + 1                                    # c = 4^-t, k * c * 2.1 < 1
+        for s_ in states:
+            a = np.asarray(s_)
+            if a.ndim == 1 or 1 in a.shape:
+                v = DM.exact_float(a.reshape(-1, 1))
+                n2 = (v.H() @ v)
+                Kq = I.scale_dy(int(n2.re[0, 0]), n2.e) - (v @ v.H())     # exactly PSD with K v = 0, so tr(v v^H K X K) = 0 for every X
+                Lg = DM.from_float(np.eye(d) + 0.1 * _rand_mat(rng, d, cplx) / d, 8)
+                Li = (Kq @ Lg).scale_dy(1, t)                               # M_i = L_i L_i^H exactly: the PSD witness has residual 0
+                Mi = (Li @ Li.H())
+            else:
+                Kq = I - I
+                Li = I - I
+                Mi = I - I                                                  # density-matrix input: its exact kernel is unknown, use M_i = 0
+            Ks.append(Kq)
+            LM.append(Li)
+            M.append(Mi)
+        S = M[0]
+        for m in M[1:]:
+            S = S + m
+        pt = {"M": M, "LM": LM, "LR": chol_factor((I - S).to_float())}
+        bad = [("rest-not-psd", {"M": [M[0] + (Ks[0].scale_dy(3, 0) if np.any(Ks[0].to_float()) else I.scale_dy(2, 0))] + M[1:]})]
+        if probs[0] > 0:
+            bad.append(("trace-rho0-M0-not-zero", {"M": [M[0] + I.scale_dy(1, 2)] + M[1:]}))
+        return pt, bad
+    if form == "ua_dual":
+        S = None
+        for i in range(k):
+            pi = DM.exact_float(np.array([[probs[i]]]))
+            t = rhos[i].scale_dy(int(pi.re[0, 0]), pi.e)
+            S = t if S is None else S + t
+        G = DM.from_float(0.25 * _rand_mat(rng, d, cplx), 8)
+        N = (S + (G @ G.H()) + I.scale_dy(1, 6)).herm_part()
+        a = [Fraction(int(rng.integers(-1, 64)), 16) if i else Fraction(-1, 1024) for i in range(k)]
+        LD = []
+        for i in range(k):
+            pi = DM.exact_float(np.array([[probs[i]]]))
+            sig = rhos[i].scale_dy(int(pi.re[0, 0]), pi.e)
+            A = N + sig.scale_dy(a[i].numerator, a[i].denominator.bit_length() - 1) - S
+            LD.append(chol_factor(A.to_float()))
+        return {"N": N, "a": a, "LN": chol_factor(N.to_float()), "LD": LD}, [("N-not-psd", {"N": N - I.scale_dy(3, 0)})]
+    raise ValueError(form)
+
+
+_EMBED_FORMS = {"me_primal": ("min_error", "primal", "min"), "me_dual": ("min_error", "dual", "max"),
+                "ua_primal": ("unambiguous", "primal", "min"), "ua_dual": ("unambiguous", "dual", "max")}
+EMB_TOL = 1e-12   # captured slack vs model slack, entrywise (both are the float image of the same exact affine expression)
+EMB_BAD = 1e-3    # a negative control must violate a captured constraint by at least this much
+
+
+def _captured_layout(P, form, d, k):
+    """([(kind, constraint)], same-layout-as-the-model?) of the captured problem; CorrespondenceBroken when its VARIABLES are not those of
+    the modelled program (then no point of the model can be written into it).  Constraints are evaluated whatever they are: a dropped or
+    relaxed constraint lets a negative control through, an added or tightened one rejects a certified feasible point."""
+    names = sorted(P.variables.keys())
+    want = {"me_primal": sorted(f"M[{i}]" for i in range(k)), "me_dual": ["Y"], "ua_primal": sorted(f"M[{i}]" for i in range(k)), "ua_dual": ["N", "a"]}[form]
+    if names != want:
+        raise CorrespondenceBroken(f"state_exclusion/{form}: the captured picos problem has variables {names}, the modelled program has {want}")
+    for n_, v in P.variables.items():
+        shp = (k, 1) if n_ == "a" else (d, d)
+        if tuple(v.shape) != shp:
+            raise CorrespondenceBroken(f"state_exclusion/{form}: variable {n_} has shape {tuple(v.shape)}, the modelled program has {shp}")
+    cons = []
+    for c in P.constraints.values():
+        if hasattr(c, "psd"):
+            cons.append(("psd", c))
+        elif type(c).__name__ in ("ComplexAffineConstraint",) or (hasattr(c, "is_equality") and c.is_equality()):
+            cons.append(("eq", c))
+        else:
+            cons.append(("other", c))     # evaluated through its slack only
+    want_kinds = {"me_primal": ["psd"] * k + ["eq"], "me_dual": ["psd"] * k, "ua_primal": ["psd"] * (k + 1) + ["eq"] * k, "ua_dual": ["psd"] * (k + 1)}[form]
+    return cons, [kd for kd, _ in cons] == want_kinds
+
+
+def _assign(P, form, pt, k):
+    """write the exact point (as floats) into the captured variables; returns an error text when a variable refuses the value"""
+    try:
+        if form in ("me_primal", "ua_primal"):
+            for i in range(k):
+                P.variables[f"M[{i}]"].value = pt["M"][i].to_float()
+        elif form == "me_dual":
+            P.variables["Y"].value = pt["Y"].to_float()
+        else:
+            P.variables["N"].value = pt["N"].to_float()
+            P.variables["a"].value = [float(x) for x in pt["a"]]
+    except Exception as e:   # e.g. a real symmetric variable refusing a complex Hermitian value
+        return f"{type(e).__name__}: {str(e)[:200]}"
+    return None
+
+
+def _captured_residuals(cons):
+    """per constraint: ('psd', slack matrix) or ('eq', residual array) as complex numpy arrays"""
+    def val(e):
+        return np.atleast_2d(np.array(e.np, dtype=complex))     # picos: numeric value as a numpy array / scalar
+
+    out = []
+    for kd, c in cons:
+        if kd == "psd":
+            out.append((kd, val(c.psd)))
+        elif kd == "eq":
+            out.append((kd, val(c.lhs) - val(c.rhs)))
+        else:
+            out.append((kd, np.atleast_2d(np.array(c.slack, dtype=float))))    # picos: slack >= 0 iff the constraint holds
+    return out
+
+
+def _point_json(pt):
+    j = {}
+    for key, v in pt.items():
+        if v is None:
+            continue
+        if key == "a":
+            j[key] = [frac_json(x) for x in v]
+        elif isinstance(v, list):
+            if any(x is None for x in v):
+                continue
+            j[key] = [x.json() for x in v]
+        else:
+            j[key] = v.json()
+    return j
+
+
+def _near_optimal_points(form, rhos, probs, d, k):
+    """untrusted: the reference solver's optimal POVM / dual operator, rounded and repaired to exact feasible points (as in certify_excl);
+    at these points the constraints are (nearly) tight, so a wrong weight, conjugate or transpose inside a constraint shows"""
+    try:
+        Ms_ref, Y_ref = _solve_ref([r.to_float() for r in rhos], probs)
+    except Exception:
+        return []
+    I = DM.eye(d)
+    if form == "me_primal":
+        M = repair_povm(Ms_ref, eps_bits=26)
+        return [({"M": M, "LM": [chol_factor(m.to_float(), delta=2.0 ** -31) for m in M]}, [])]
+    Y = DM.from_float((Y_ref + Y_ref.conj().T) / 2, 40).herm_part() - I.scale_dy(1, 24)
+    LY = []
+    for i in range(k):
+        pi = DM.exact_float(np.array([[probs[i]]]))
+        LY.append(chol_factor((rhos[i].scale_dy(int(pi.re[0, 0]), pi.e) - Y).to_float()))
+    return [({"Y": Y, "LY": LY}, [("Y-optimal-plus-1/32", {"Y": Y + I.scale_dy(1, 5)})])]
+
+
+def _violation_of(capt):
+    """largest violation of the captured constraints at the current point: -min eigenvalue of a PSD slack, modulus of an equality residual
+    (real part for the scalar constraints `(m | rho).real == 0`)"""
+    vio = 0.0
+    for kc, a in capt:
+        if not a.size:
+            continue
+        if kc == "psd":
+            vio = max(vio, -float(np.min(np.linalg.eigvalsh((a + a.conj().T) / 2))), float(np.max(np.abs(a - a.conj().T))))
+        elif kc == "eq":
+            vio = max(vio, float(np.max(np.abs(np.real(a) if a.shape == (1, 1) else a))))
+        else:
+            vio = max(vio, -float(np.min(np.real(a))))
+    return vio
+
+
+def work_embed(task, res: Result):
+    from toqito.state_opt import state_exclusion
+    warnings.filterwarnings("ignore")
+    inst, seed = task
+    rng = np.random.default_rng(seed)
+    drv = worker_driver()
+    states, probs, d, k = inst["states"], inst["probs"], inst["d"], inst["k"]
+    rhos = _dms_exact_raw(states)
+    herm_in = all(r.is_herm() for r in rhos)
+    base = _base(inst)
+    pj = [frac_json(Fraction(float(p))) for p in probs] if inst["probs_given"] else None
+    sargs = _state_args(states)
+    thm = "checkExclPrimal_sound / checkExclDual_sound / checkUnambExclPrimal_sound / checkUnambExclDual_sound (the programs they speak about)"
+    vec_in = all(np.asarray(s_).ndim == 1 or 1 in np.asarray(s_).shape for s_ in states)
+    ua_pts = None
+    for form, (strategy, pd, direction) in _EMBED_FORMS.items():
+        desc0 = dict(base, fn="embedding", form=form, probs_given=inst["probs_given"], seed=int(seed))
+        prng = call_rng(inst.get("pres"), "embed", form)
+        vecs = present_list(prng, states, force_real=inst.get("real_idx", ()))
+        got = _capture(lambda: state_exclusion(vecs, (list(probs) if inst["probs_given"] else None), strategy=strategy, primal_dual=pd))
+        if len(got) != 1:
+            raise CorrespondenceBroken(f"state_exclusion({strategy},{pd}): expected one picos problem handed to solve(), captured {len(got)}")
+        P, kw = got[0]
+        res.count("embedding/problems-captured")
+        cons, same_layout = _captured_layout(P, form, d, k)
+        res.count("embedding/constraints-captured", len(cons))
+        if not same_layout:
+            res.count("embedding/other-constraint-layout")
+        if P.objective.direction != direction:
+            res.violation(f"state_exclusion({strategy},{pd}) hands a '{P.objective.direction}' problem to the solver, the modelled program is a '{direction}' problem",
+                          {"function": "state_exclusion", "args": desc0, "impl": P.objective.direction, "model": direction, "check": "embedding-direction", "theorem": "excl_weak_duality / unamb_excl_weak_duality"})
+            continue
+        points = [("interior",) + _embed_points(rng, form, rhos, probs, states, d, k)]
+        if form in ("me_primal", "me_dual") and herm_in:
+            points += [("near-optimal",) + x for x in _near_optimal_points(form, rhos, probs, d, k)]
+        elif vec_in and all(p > 0 for p in probs):
+            if ua_pts is None:
+                try:
+                    ua_pts = _unamb_points(states, rhos, probs, *_solve_unamb_ref([r.to_float() for r in rhos], probs, vecs=states))
+                except Exception:
+                    ua_pts = ()
+            if ua_pts:
+                pt_ = ua_pts[0] if form == "ua_primal" else ua_pts[1]
+                if form == "ua_primal":
+                    bad_ = []
+                else:
+                    bad_ = [("N-optimal-minus-1/32", {"N": pt_["N"] - DM.eye(d).scale_dy(1, 5)})]
+                points.append(("near-optimal", pt_, bad_))
+        for pname, pt, bad in points:
+            desc = dict(desc0, point=pname)
+            m = drv.ask("excl_program", dict({"d": d, "states": sargs, "p": pj, "form": form}, **_point_json(pt)))
+            if "reject" in m:
+                raise RuntimeError(f"excl_program rejected the request: {m}")
+            feasible = "ok" in m["check"]
+            if not feasible:
+                # a PSD witness could not be computed (degenerate optimum) or the raw input is not exactly Hermitian: counted, no feasibility verdict
+                res.count(f"embedding/{pname}-point-not-certified" + ("" if herm_in else "/non-hermitian-input"))
+            why = _assign(P, form, pt, k)
+            ptj = _point_json({kk: vv for kk, vv in pt.items() if not kk.startswith("L")})
+            if why is not None:
+                res.case(desc, True, f"embedding/{form}/variable-refuses-point")
+                res.violation(f"state_exclusion({strategy},{pd}): a point of the modelled program cannot be written into the variables of the program the code builds ({why})",
+                              {"function": "state_exclusion", "args": desc, "impl": why, "model": "feasible" if feasible else "uncertified", "check": "embedding-variable", "cplx": inst["cplx"],
+                               "point": ptj, "theorem": thm})
+                break
+            capt = _captured_residuals(cons)
+            model = [("psd", _qmat(x, (d, d))) for x in m["psd"]] + [("eq", _qmat(x, (d, d))) for x in m["eq"]] + [("eq", np.array([[float(Fraction(*x))]]).astype(complex)) for x in m["zero"]]
+            worst = None
+            if same_layout and len(model) == len(capt) and all(a.shape == b_.shape for (_, a), (_, b_) in zip(capt, model)):
+                worst = 0.0
+                for (kc, a), (km, b_) in zip(capt, model):
+                    if kc == "eq" and b_.shape == (1, 1):
+                        a = np.real(a) + 0j     # `(m | rho).real == 0`
+                    worst = max(worst, float(np.max(np.abs(a - b_))) if a.size else 0.0)
+            obj_c = complex(P.objective.function.value)
+            obj_m = float(Fraction(*m["objective"]))
+            scale = max(1.0, float(max(np.max(np.abs(b_)) for _, b_ in model)))
+            res.case(desc, feasible, f"embedding/{form}/{pname}/{inst['form']}/{'c' if inst['cplx'] else 'r'}/{'feasible' if feasible else 'uncertified'}")
+            # evidence only: are the constraints written exactly as in the model (same slack operators), or in an equivalent other form?
+            res.count("embedding/slacks-identical" if (worst is not None and worst <= EMB_TOL * scale) else "embedding/slacks-differ")
+            if abs(obj_c - obj_m) > EMB_TOL * scale:
+                res.violation(f"state_exclusion({strategy},{pd}): the objective of the program the code builds is {obj_c!r} at an exact point, the modelled objective is {obj_m!r}",
+                              {"function": "state_exclusion", "args": desc, "impl": [obj_c.real, obj_c.imag], "model": obj_m, "check": "embedding-objective", "cplx": inst["cplx"], "point": ptj, "theorem": thm})
+                break
+            if feasible:
+                vio = _violation_of(capt)
+                if vio > 1e-9:
+                    res.violation(f"state_exclusion({strategy},{pd}): a point certified feasible for the modelled program ({pname}) violates a constraint of the program the code builds by {vio:.3e}",
+                                  {"function": "state_exclusion", "args": desc, "impl": vio, "model": "feasible", "check": "embedding-feasible", "cplx": inst["cplx"], "point": ptj, "theorem": thm})
+                    break
+                res.count("embedding/feasible-points-embedded")
+            # negative controls: the model rejects, and some captured constraint is violated
+            for label, mod in bad:
+                pt2 = dict(pt, **mod)
+                m2 = drv.ask("excl_program", dict({"d": d, "states": sargs, "p": pj, "form": form}, **_point_json(pt2)))
+                if "ok" in m2.get("check", {}):
+                    raise RuntimeError(f"negative control {label}: the verified checker accepted an infeasible point")
+                if pname == "near-optimal":
+                    # the control must be infeasible for the MODEL by a margin (smallest eigenvalue of a model slack below -1e-2), else it proves nothing
+                    if min(float(np.min(np.linalg.eigvalsh(_qmat(x, (d, d))))) for x in m2["psd"]) > -1e-2:
+                        continue
+                if _assign(P, form, pt2, k) is not None:
+                    continue
+                vio = _violation_of(_captured_residuals(cons))
+                res.count("embedding/negative-controls")
+                if vio < EMB_BAD:
+                    res.violation(f"state_exclusion({strategy},{pd}): the infeasible point '{label}' (rejected by the model) satisfies every constraint of the program the code builds (largest violation {vio:.3e}): "
+                                  "a constraint is missing or weakened",
+                                  {"function": "state_exclusion", "args": dict(desc, control=label), "impl": vio, "model": "infeasible", "check": "embedding-negative-control", "cplx": inst["cplx"],
+                                   "point": _point_json({kk: vv for kk, vv in pt2.items() if not kk.startswith("L")}), "theorem": thm})
+
+
+# ------------------------------------------------------------------------------------------------
+# stream `post`: what is_antidistinguishable / common_quantum_overlap do around the solve (state_exclusion replaced by a recorder)
+
+
+def work_post(task, res: Result):
+    import importlib
+    states, vals = task
+    drv = worker_driver()
+    n = len(states)
+    for fn_name in ("is_antidistinguishable", "common_quantum_overlap"):
+        mod = importlib.import_module(f"toqito.state_props.{fn_name}")
+        if not hasattr(mod, "state_exclusion"):
+            raise CorrespondenceBroken(f"{fn_name}: the module no longer refers to state_exclusion by a module-level name")
+        fn = getattr(mod, fn_name)
+        for v in vals:
+            calls = []
+
+            def stub(*a, **kw):
+                calls.append((a, kw))
+                return float(v), None
+
+            orig = mod.state_exclusion
+            mod.state_exclusion = stub
+            try:
+                out = fn(list(states))
+            finally:
+                mod.state_exclusion = orig
+            desc = {"fn": "post", "function": fn_name, "n": n, "v": float(v)}
+            m = drv.ask("excl_post", {"n": n, "v": frac_json(Fraction(float(v)))})
+            near = abs(abs(v) - 1e-8) <= 1e-8 * 2.0 ** -30   # the float and the rational threshold differ by 1 ulp: not generated, guard only
+            res.case(desc, not near, f"post/{fn_name}")
+            if len(calls) != 1:
+                raise CorrespondenceBroken(f"{fn_name} calls state_exclusion {len(calls)} times, the model: once")
+            a, kw = calls[0]
+            names = ("vectors", "probs", "strategy", "solver", "primal_dual")
+            got = dict(zip(names, a), **kw)
+            ones = [float(Fraction(*x)) for x in m["ones"]]
+            pr = got.get("probs")
+            ok_args = (pr is not None and [float(x) for x in pr] == ones and got.get("strategy", "min_error") == "min_error" and got.get("primal_dual", "dual") == "dual"
+                       and len(got.get("vectors", ())) == n and all(np.array_equal(np.asarray(x), np.asarray(y)) for x, y in zip(got["vectors"], states)))
+            if not ok_args:
+                # the value checks of work_anti decide whether this changes the answer; here: the model of the call no longer mirrors the code
+                raise CorrespondenceBroken(f"{fn_name} calls state_exclusion with probs={pr!r}, strategy={got.get('strategy')!r}, primal_dual={got.get('primal_dual')!r}; "
+                                           "the model: all-ones weights, min_error, dual, the caller's states")
+            if fn_name == "is_antidistinguishable":
+                if near or bool(out) == bool(m["anti"]):
+                    continue
+                if abs(v) <= 1e-9 or v >= POS_LO:
+                    # contradicts the property itself: a value that is zero to solver accuracy must be reported antidistinguishable, a value >= 1e-3 must not
+                    res.violation(f"is_antidistinguishable answers {bool(out)} for the exclusion value {float(v)!r} (all-ones weights)",
+                                  {"function": fn_name, "args": desc, "impl": bool(out), "model": bool(m["anti"]), "check": "post-value", "theorem": "antidist_test_iff / antidist_test_decides"})
+                else:
+                    raise CorrespondenceBroken(f"is_antidistinguishable answers {bool(out)} for the solver value {float(v)!r}; the model np.isclose(v, 0) gives {bool(m['anti'])}")
+            else:
+                want = float(Fraction(*m["cqo"]))
+                dev = abs(float(np.real(out)) - want)
+                if dev > 1e-9:
+                    res.violation(f"common_quantum_overlap returns {float(np.real(out))!r} when the exclusion value for all-ones weights is {float(v)!r} (n={n}); the two must agree (n(1-(1-v/n)) = v)",
+                                  {"function": fn_name, "args": desc, "impl": float(np.real(out)), "model": want, "check": "post-value", "theorem": "cqo_post_eq"})
+                elif dev > 4e-16 * n + 1e-15 * abs(want):
+                    raise CorrespondenceBroken(f"common_quantum_overlap returns {float(np.real(out))!r} for the solver value {float(v)!r}, n={n}; the modelled arithmetic n(1-(1-v/n)) gives {want!r}")
+
+
+# ------------------------------------------------------------------------------------------------
+# stream `families`: trine() and pusey_barrett_rudolph(n, theta) against the Lean constructors on the exact images of sqrt(3), cos, sin
+
+
+def work_family(task, res: Result):
+    from toqito.states import pusey_barrett_rudolph, trine
+    drv = worker_driver()
+    kind, n, theta = task
+    if kind == "trine":
+        out = trine()
+        m = drv.ask("excl_family", {"name": "trine", "h": [1, 2], "r": frac_json(Fraction(float(np.sqrt(3))))})
+        desc = {"fn": "family", "name": "trine"}
+        tol = 0.0
+    else:
+        out = pusey_barrett_rudolph(n, theta)
+        m = drv.ask("excl_family", {"name": "pbr", "n": n, "c": frac_json(Fraction(float(np.cos(theta / 2)))), "s": frac_json(Fraction(float(np.sin(theta / 2))))})
+        desc = {"fn": "family", "name": "pbr", "n": n, "theta": float(theta)}
+        tol = 2.0 ** -51 * n
+    res.case(desc, True, f"family/{kind}" + (f"/n={n}" if kind != "trine" else ""))
+    model = [[Fraction(*x) for x in v] for v in m["states"]]
+    impl = [np.asarray(v) for v in out]
+    ok = len(impl) == len(model) and all(a.size == len(b) and (a.ndim == 1 or a.shape == (len(b), 1)) for a, b in zip(impl, model))
+    if ok:
+        for a, b in zip(impl, model):
+            for x, y in zip(a.reshape(-1), b):
+                if np.iscomplexobj(x) and np.imag(x) != 0 or abs(Fraction(float(np.real(x))) - y) > tol:
+                    ok = False
+    if not ok:
+        # the certified-interval checks on the family instances decide whether the values are still right; here: the theorems about the named
+        # families (trine_antidistinguishable, pbr2_antidistinguishable, pbr1_antidist_iff) speak about other vectors than the code returns
+        raise CorrespondenceBroken(f"{desc['name']}({'' if kind == 'trine' else f'{n}, {theta!r}'}) = {[np.asarray(v).reshape(-1).tolist() for v in out]} differs from the Lean constructor "
+                                   f"{[[float(y) for y in v] for v in model]} (order of the states, of the tensor factors, or a sign)")
+
+
 # ------------------------------------------------------------------------------------------------
 
 
@@ -628,6 +1310,14 @@ def run(ctx, model_ok=True):
             U = np.real(U)
         inv.append((inst, U, [int(x) for x in rng.permutation(inst["k"])]))
     run_pool(ctx, work_invariance, inv)
+    # ---- the programs the code builds against the modelled programs (no solve), the arithmetic around the solve, the named constructors
+    emb = (insts[:40] + fam[::3]) if quick else (insts[:400] + fam)
+    run_pool(ctx, work_embed, [(inst, int(rng.integers(2 ** 31))) for inst in emb])
+    post_vals = [0.0, 1e-9, -1e-9, 9.9e-9, 1.01e-8, -1.01e-8, -9.9e-9, 1e-7, 2e-3, 0.25, 1.0, -3e-12] + [float(x) for x in rng.random(4 if quick else 40) * rng.choice([1e-8, 1e-2, 1.0, 4.0], size=(4 if quick else 40))]
+    run_pool(ctx, work_post, [([np.eye(n_)[:, i % n_] for i in range(m_)], post_vals) for (n_, m_) in ((2, 2), (2, 3), (3, 4), (4, 5))])
+    fam_tasks = [("trine", 0, 0.0)] + [("pbr", n_, float(th)) for n_ in (1, 2, 3) for th in [2 * np.arctan(2 ** (1 / n_) - 1), np.pi / 2] + [float(x) for x in rng.uniform(0.05, 1.5, size=(2 if quick else 12))]]
+    run_pool(ctx, work_family, fam_tasks)
+    ctx.extra["embedding"] = {"tolerance_objective": EMB_TOL, "tolerance_feasible": 1e-9, "negative_control_margin": EMB_BAD}
     ctx.extra["tolerances"] = dict(TAU, other=TAU_OTHER, povm=1e-4, zero_hi=ZERO_HI, pos_lo=POS_LO)
     ctx.extra["certified_interval_width_bound"] = WIDTH_OK
 
@@ -640,12 +1330,21 @@ def replay(ctx, rec):
             return complex(e["re"], e["im"]) if isinstance(e, dict) else e
         return np.array([[el(e) for e in row] if isinstance(row, list) else el(row) for row in s])
 
-    inst = {"d": a["d"], "k": a["k"], "cplx": a["cplx"], "form": a["form"], "kind": a.get("kind", "random"), "probs": a["probs"],
-            "probs_given": a.get("probs_given", True), "family": a.get("family"), "anti": None, "states": [arr(s) for s in a["states"]],
-            "pres": a.get("pres"), "real_idx": a.get("real_idx") or []}
+    if a.get("fn") in ("post", "family"):
+        inst = None
+    else:
+        inst = {"d": a["d"], "k": a["k"], "cplx": a["cplx"], "form": a["form"], "kind": a.get("kind", "random"), "probs": a["probs"],
+                "probs_given": a.get("probs_given", True), "family": a.get("family"), "anti": None, "states": [arr(s) for s in a["states"]],
+                "pres": a.get("pres"), "real_idx": a.get("real_idx") or []}
     res = Result()
     fn = rec.get("function")
-    if fn in ("is_antidistinguishable", "common_quantum_overlap") or a.get("fn") in ("is_antidistinguishable", "common_quantum_overlap"):
+    if a.get("fn") == "post":
+        work_post(([np.eye(a["n"])[:, i % a["n"]] for i in range(a["n"])], [a["v"]]), res)
+    elif a.get("fn") == "family":
+        work_family((("trine", 0, 0.0) if a["name"] == "trine" else ("pbr", a["n"], a["theta"])), res)
+    elif a.get("fn") == "embedding":
+        work_embed((inst, a["seed"]), res)
+    elif fn in ("is_antidistinguishable", "common_quantum_overlap") or a.get("fn") in ("is_antidistinguishable", "common_quantum_overlap"):
         work_anti(inst, res)
     elif a.get("fn") == "invariance":
         work_invariance((inst, arr(a["U"]), a["perm"]), res)
